@@ -133,7 +133,16 @@ def main():
                 if kind == "srv0-while-pending":
                     gone = True
                 if gone:
-                    out["violations"].append({"sig": "tcp|hang|%s|%s" % (kind, "late" if name == "late" else "pending"), "what": "caller %s still blocked 40 s after the scenario although the client's listener has exited" % name, "detail": case})
+                    import traceback
+                    diag = {"client_running": nc.running, "client_writer_is_none": nc.writer is None, "client_pending": len(nc.pending_responses),
+                            "client_run_exited": nc._run_exit_event.is_set(), "server_connections": len(ipc._ipc_tcp_server.connections),
+                            "server_task_is_none": ipc._ipc_tcp_server.task is None}
+                    stacks = {}
+                    names_by_id = {t.ident: t.name for t in threading.enumerate()}
+                    for tid, fr in sys._current_frames().items():
+                        stacks[names_by_id.get(tid, str(tid))] = [ln.strip().replace("\n", " | ")[:200] for ln in traceback.format_stack(fr)[-7:]]
+                    out["violations"].append({"sig": "tcp|hang|%s|%s" % (kind, "late" if name == "late" else "pending"), "what": "caller %s still blocked 40 s after the scenario although the client's listener has exited" % name,
+                                              "detail": dict(case, diagnostics=diag, stacks=stacks)})
                 else:
                     out["counters"]["inconclusive_blocked_callers"] = 1
                 continue
